@@ -192,3 +192,15 @@ Example allocations_of_an_ordered_history :
      | _ => False
      end.
 Proof. vm_compute. repeat split; reflexivity. Qed.
+
+(** CrossGroupPush: from the two-group state of [ops_item], the second group's block (1) is at
+    distance 1; a push then creates a third group and three polls follow: the hypotheses of
+    C13_group_polled_within_its_distance_with_pushes hold (1 + 1 created < 3 polls) *)
+From FB Require Import CrossGroupPush.
+Definition ops_more : list op := [OPush 4%N [([], RP)]; OPoll 7 no_inj; OPoll 7 no_inj; OPoll 7 no_inj].
+Example pushes_between_polls :
+  let s := reach P0 ops_item in
+  let u := coll_fu (st_coll s) in
+  st_coll s = Cu false u /\ Pos 1 u 1 /\ Forall poll_env_push ops_more
+  /\ ncreated P0 s ops_more = 1 /\ npolls ops_more = 3.
+Proof. vm_compute. repeat split; try reflexivity. repeat constructor. Qed.
